@@ -166,6 +166,8 @@ Definition p_descop (v : val) : option desc_op :=
   | VL [VI 19%Z; b] => do b <- p_bool b; Some (DSetHasSubSegments b)
   | VL [VI 20%Z; VI j; VB b] => Some (DMidSetUPID (Z.to_nat j) b)
   | VL [VI 21%Z; VI j; VI x] => Some (DMidSetUPIDType (Z.to_nat j) (w8 (zN x)))
+  | VL [VI 22%Z; VI j; VL [VI 0%Z; VI x]] => Some (DComp (Z.to_nat j) (CoSetTag (w8 (zN x))))
+  | VL [VI 22%Z; VI j; VL [VI 1%Z; VI x]] => Some (DComp (Z.to_nat j) (CoSetOffset (w64 (zN x))))
   | _ => None
   end.
 Definition p_newcmd (v : val) : option (N * list cmd_op) :=
